@@ -94,17 +94,6 @@ def decFRow (v : V) : Option (FRow Nat) :=
   | .list [i, r] => do let i ← i.nat?; let r ← decRow r; pure ⟨r, i⟩
   | _ => none
 def encFRow (r : FRow Nat) : V := .list [encNat r.payload, encRow r.s]
-/-- C13 statement: epoch e holds exactly the rows whose closing side extremum lies in (e·L, (e+1)·L], in order, shifted by e·L. -/
-def epochSpec (rows : List (FRow Nat)) (sigLen L : Nat) : List (List (FRow Nat)) :=
-  (List.range ((sigLen + L - 1) / L)).map fun e =>
-    (rows.filter fun r => decide (((e * L : Nat) : Int) < r.s.nextTrough) && decide (r.s.nextTrough ≤ (((e + 1) * L : Nat) : Int))).map
-      fun r => r.shift ((e * L : Nat) : Int)
-/-- C18 statement for limit_df. -/
-def limitSpec (rows : List (FRow Nat)) (fsStart : Rat) (fsStop : Option Rat) (off : Int) (reset : Bool) : List (FRow Nat) :=
-  let kept := rows.filter fun r => decide (fsStart ≤ (r.s.lastTrough : Rat)) &&
-    (match fsStop with | some st => decide ((r.s.nextTrough : Rat) ≤ st) | none => true)
-  if reset then kept.map (·.shift off) else kept
-
 def handle (args : List V) : V :=
   match args with
   | [.atom "ping"] => .atom "pong"
@@ -329,8 +318,7 @@ def handle (args : List V) : V :=
     | _, _, _ => bad "limitsig.model"
   | [.atom "limitsig.spec", times, a, b] =>
     match times.listOf? V.rat?, a.opt? V.rat?, b.opt? V.rat? with
-    | some t, some a, some b => encList encNat ((List.range t.length).filter fun i =>
-        (match a with | some a => decide (a ≤ t.getD i 0) | none => true) && (match b with | some b => decide (t.getD i 0 < b) | none => true))
+    | some t, some a, some b => encList encNat (limitSignalSpec t a b)
     | _, _, _ => bad "limitsig.spec"
   | _ => bad "unknown-command"
 
